@@ -94,3 +94,203 @@ Proof.
   - exfalso. exact (Hr n sf i eq_refl).
   - exfalso. exact (Hd d eq_refl).
 Qed.
+
+(* ================================================================== C12: literals are data, never code *)
+(* the shape of a filter: everything but the literal values *)
+Fixpoint same_shape (a b : fexpr) : Prop :=
+  match a, b with
+  | FHas p, FHas q => p = q
+  | FMissing p, FMissing q => p = q
+  | FCmp o p _, FCmp o' q _ => o = o' /\ p = q
+  | FAnd a1 a2, FAnd b1 b2 => same_shape a1 b1 /\ same_shape a2 b2
+  | FOr a1 a2, FOr b1 b2 => same_shape a1 b1 /\ same_shape a2 b2
+  | _, _ => False
+  end.
+
+(* the generated expression does not depend on the literal values at all *)
+Lemma fgen_shape : forall a b ca cb, same_shape a b -> length ca = length cb ->
+  fst (fgen a ca) = fst (fgen b cb) /\ length (snd (fgen a ca)) = length (snd (fgen b cb)).
+Proof.
+  induction a as [p|p|op p v|a1 IH1 a2 IH2|a1 IH1 a2 IH2]; intros b ca cb; destruct b as [q|q|op' q w|b1 b2|b1 b2];
+    cbn [same_shape]; try tauto; intros H L; cbn [fgen].
+  - subst. split; [reflexivity|exact L].
+  - subst. split; [reflexivity|exact L].
+  - destruct H; subst. cbn [fst snd]. rewrite !app_length, L. split; reflexivity.
+  - destruct H as [H1 H2]. destruct (IH1 b1 ca cb H1 L) as [E1 L1].
+    destruct (fgen a1 ca) as [x1 c1]. destruct (fgen b1 cb) as [y1 d1]. cbn [fst snd] in *.
+    destruct (IH2 b2 c1 d1 H2 L1) as [E2 L2].
+    destruct (fgen a2 c1) as [x2 c2]. destruct (fgen b2 d1) as [y2 d2]. cbn [fst snd] in *. subst. split; [reflexivity|exact L2].
+  - destruct H as [H1 H2]. destruct (IH1 b1 ca cb H1 L) as [E1 L1].
+    destruct (fgen a1 ca) as [x1 c1]. destruct (fgen b1 cb) as [y1 d1]. cbn [fst snd] in *.
+    destruct (IH2 b2 c1 d1 H2 L1) as [E2 L2].
+    destruct (fgen a2 c1) as [x2 c2]. destruct (fgen b2 d1) as [y2 d2]. cbn [fst snd] in *. subst. split; [reflexivity|exact L2].
+Qed.
+
+Theorem source_independent_of_literals a b : same_shape a b -> render (fst (fgen a [])) = render (fst (fgen b [])).
+Proof. intro H. destruct (fgen_shape a b [] [] H eq_refl) as [E _]. rewrite E. reflexivity. Qed.
+
+(* ---- the only text of the filter that reaches the source: tag names, and they are identifiers ---- *)
+Definition name_ok (n : str) : Prop := Forall (fun c => is_id_rest c = true) n.
+Fixpoint names_ok (e : fexpr) : Prop :=
+  match e with
+  | FHas p | FMissing p | FCmp _ p _ => Forall name_ok p
+  | FAnd a b | FOr a b => names_ok a /\ names_ok b
+  end.
+
+Lemma run_all f : forall fuel i a j, run f i fuel = (a, j) -> Forall (fun c => f c = true) a.
+Proof.
+  induction fuel as [|n IH]; intros i a j; cbn [run].
+  - intro Q; inversion Q; constructor.
+  - destruct (rest i) as [|c r]; [intro Q; inversion Q; constructor|].
+    destruct (f c) eqn:Ef; [|intro Q; inversion Q; constructor].
+    destruct (run f (mkInp c r) n) as [a' j'] eqn:E. intro Q; inversion Q; subst. constructor; [exact Ef|eapply IH; eauto].
+Qed.
+Lemma is_lower_id c : is_lower c = true -> is_id_rest c = true.
+Proof. intro H. unfold is_id_rest, is_alpha. rewrite H. rewrite orb_true_r. reflexivity. Qed.
+Lemma p_name_ok i n j : p_name i = Some (n, j) -> name_ok n.
+Proof.
+  unfold p_name. destruct (rest (ws i)) as [|c r]; [discriminate|]. destruct (is_lower c) eqn:El; [|discriminate].
+  unfold span_of. destruct (run is_id_rest (mkInp c r) _) as [a k] eqn:E. intro Q; inversion Q; subst.
+  constructor; [apply is_lower_id; exact El|eapply run_all; eauto].
+Qed.
+Lemma p_path_rest_ok : forall fuel i l j, p_path_rest fuel i = (l, j) -> Forall name_ok l.
+Proof.
+  induction fuel as [|f IH]; intros i l j; cbn [p_path_rest]; [intro Q; inversion Q; constructor|].
+  destruct (lit [45; 62] i) as [[u k]|]; [|intro Q; inversion Q; constructor].
+  destruct (p_name k) as [[n k']|] eqn:En; [|intro Q; inversion Q; constructor].
+  destruct (p_path_rest f k') as [l' e] eqn:E. intro Q; inversion Q; subst.
+  constructor; [eapply p_name_ok; eauto|eapply IH; eauto].
+Qed.
+Lemma p_path_ok i p j : p_path i = Some (p, j) -> Forall name_ok p.
+Proof.
+  unfold p_path. destruct (p_name i) as [[n k]|] eqn:En; [|discriminate].
+  destruct (p_path_rest _ k) as [l e] eqn:E. intro Q; inversion Q; subst.
+  constructor; [eapply p_name_ok; eauto|eapply p_path_rest_ok; eauto].
+Qed.
+
+Lemma fold_more_ok k mk operand :
+  (forall a b, names_ok a -> names_ok b -> names_ok (mk a b)) ->
+  (forall i e j, operand i = Some (e, j) -> names_ok e) ->
+  forall fuel acc i e j, names_ok acc -> fold_more fuel k mk operand acc i = (e, j) -> names_ok e.
+Proof.
+  intros Hmk Hop. induction fuel as [|f IH]; intros acc i e j Hacc; cbn [fold_more]; [intro Q; inversion Q; subst; exact Hacc|].
+  destruct (keyword k i) as [[u i1]|]; [|intro Q; inversion Q; subst; exact Hacc].
+  destruct (operand i1) as [[e1 i2]|] eqn:Eo; [|intro Q; inversion Q; subst; exact Hacc].
+  apply IH. apply Hmk; [exact Hacc|eapply Hop; eauto].
+Qed.
+
+Lemma first_some {A} (a b : option A) x : match a with Some r => Some r | None => b end = Some x -> a = Some x \/ b = Some x.
+Proof. destruct a; intro H; [left|right]; exact H. Qed.
+
+Section Inner.
+  Variable inner : fparser fexpr.
+  Hypothesis Hinner : forall i e j, inner i = Some (e, j) -> names_ok e.
+  Lemma p_term_with_ok i0 e0 j0 : p_term_with inner i0 = Some (e0, j0) -> names_ok e0.
+  Proof.
+    unfold p_term_with. intro Q.
+    apply first_some in Q. destruct Q as [Q|Q].
+    { destruct (lit [40] i0) as [[u a]|]; [|discriminate]. destruct (inner a) as [[e1 k]|] eqn:Ef; [|discriminate].
+      destruct (lit [41] k) as [[u2 l]|]; [|discriminate]. inversion Q; subst. eapply Hinner; eauto. }
+    apply first_some in Q. destruct Q as [Q|Q].
+    { destruct (keyword KW_NOT i0) as [[u a]|]; [|discriminate]. destruct (p_path a) as [[p k]|] eqn:Ep; [|discriminate].
+      inversion Q; subst. cbn [names_ok]. eapply p_path_ok; eauto. }
+    apply first_some in Q. destruct Q as [Q|Q].
+    { destruct (p_path i0) as [[p k]|] eqn:Ep; [|discriminate]. destruct (p_cmpop k) as [[op k2]|]; [|discriminate].
+      destruct (p_val k2) as [[v l]|]; [|discriminate]. inversion Q; subst. cbn [names_ok]. eapply p_path_ok; eauto. }
+    destruct (p_path i0) as [[p k]|] eqn:Ep; [|discriminate]. inversion Q; subst. cbn [names_ok]. eapply p_path_ok; eauto.
+  Qed.
+  Lemma p_and_with_ok i0 e0 j0 : p_and_with inner i0 = Some (e0, j0) -> names_ok e0.
+  Proof.
+    unfold p_and_with. destruct (p_term_with inner i0) as [[e1 j1]|] eqn:Et; [|discriminate].
+    destruct (fold_more _ KW_AND FAnd (p_term_with inner) e1 j1) as [e2 j2] eqn:Ef. intro Q; inversion Q; subst.
+    eapply (fold_more_ok KW_AND FAnd (p_term_with inner)); [intros; split; assumption|exact p_term_with_ok| |exact Ef].
+    eapply p_term_with_ok; eauto.
+  Qed.
+  Lemma p_or_with_ok i0 e0 j0 : p_or_with inner i0 = Some (e0, j0) -> names_ok e0.
+  Proof.
+    unfold p_or_with. destruct (p_and_with inner i0) as [[e1 j1]|] eqn:Et; [|discriminate].
+    destruct (fold_more _ KW_OR FOr (p_and_with inner) e1 j1) as [e2 j2] eqn:Ef. intro Q; inversion Q; subst.
+    eapply (fold_more_ok KW_OR FOr (p_and_with inner)); [intros; split; assumption|exact p_and_with_ok| |exact Ef].
+    eapply p_and_with_ok; eauto.
+  Qed.
+End Inner.
+
+Lemma p_filter_ok : forall fuel i e j, p_filter fuel i = Some (e, j) -> names_ok e.
+Proof.
+  induction fuel as [|f IH]; intros i e j; cbn [p_filter]; [discriminate|].
+  apply p_or_with_ok. intros i0 e0 j0. apply IH.
+Qed.
+
+Theorem fparse_names_ok t e : fparse t = Some e -> names_ok e.
+Proof.
+  unfold fparse. destruct (p_filter _ _) as [[e0 j]|] eqn:E; [|discriminate].
+  destruct (rest (ws j)); [|discriminate]. intro Q; inversion Q; subst. eapply p_filter_ok; eauto.
+Qed.
+
+(* ---- the alphabet of the generated source ---- *)
+Definition safe (c : N) : bool := is_id_rest c || memN c [39; 91; 93; 40; 41; 44; 32; 33; 61; 60; 62].
+Definition all_safe (t : str) : Prop := Forall (fun c => safe c = true) t.
+Lemma const_safe s : forallb safe s = true -> all_safe s.
+Proof. intro H. apply Forall_forall. intros c Hc. rewrite forallb_forall in H. exact (H c Hc). Qed.
+Lemma all_safe_app a b : all_safe a -> all_safe b -> all_safe (a ++ b)%list.
+Proof. intros. apply Forall_app. split; assumption. Qed.
+Lemma all_safe_cons c t : safe c = true -> all_safe t -> all_safe (c :: t).
+Proof. intros. constructor; assumption. Qed.
+Lemma name_safe n : name_ok n -> all_safe n.
+Proof. intro H. eapply Forall_impl; [|exact H]. intros c Hc. unfold safe. rewrite Hc. reflexivity. Qed.
+Lemma join_safe sep l : all_safe sep -> Forall all_safe l -> all_safe (join sep l).
+Proof.
+  intros Hs. induction 1 as [|x l Hx Hl IH]; cbn [join]; [constructor|].
+  destruct l as [|y l']; [exact Hx|]. apply all_safe_app; [exact Hx|]. apply all_safe_app; [exact Hs|exact IH].
+Qed.
+Lemma digits_fuel_safe : forall fuel n acc, all_safe acc -> all_safe (digits_fuel fuel n acc).
+Proof.
+  assert (D : forall k, k < 10 -> safe (48 + k) = true).
+  { intros k Hk. unfold safe, is_id_rest, is_dig. replace ((48 <=? 48 + k) && (48 + k <=? 57)) with true; [rewrite orb_true_r; reflexivity|].
+    symmetry. apply andb_true_iff. split; apply N.leb_le; lia. }
+  induction fuel as [|f IH]; intros n acc Ha; cbn [digits_fuel].
+  - destruct (N.ltb_spec n 10); constructor; try exact Ha; apply D; [assumption|apply N.mod_lt; lia].
+  - destruct (N.ltb_spec n 10); [constructor; [apply D; assumption|exact Ha]|].
+    apply IH. constructor; [apply D; apply N.mod_lt; lia|exact Ha].
+Qed.
+Lemma str_of_N_safe n : all_safe (str_of_N n).
+Proof. unfold str_of_N. apply digits_fuel_safe. constructor. Qed.
+
+Fixpoint pnames_ok (x : pyexpr) : Prop :=
+  match x with
+  | PGetPath p => Forall name_ok p
+  | PConst _ => True
+  | PCompare _ l r => pnames_ok l /\ pnames_ok r
+  | PAnd a b | POr a b => pnames_ok a /\ pnames_ok b
+  | PIdNe a | PIdEq a => pnames_ok a
+  end.
+Lemma fgen_names : forall e c, names_ok e -> pnames_ok (fst (fgen e c)).
+Proof.
+  induction e as [p|p|op p v|a IHa b IHb|a IHa b IHb]; intros c H; cbn [fgen fst pnames_ok names_ok] in *; auto.
+  - destruct H as [Ha Hb]. specialize (IHa c Ha). destruct (fgen a c) as [x c1]. specialize (IHb c1 Hb). destruct (fgen b c1) as [y c2].
+    cbn [fst pnames_ok] in *. split; assumption.
+  - destruct H as [Ha Hb]. specialize (IHa c Ha). destruct (fgen a c) as [x c1]. specialize (IHb c1 Hb). destruct (fgen b c1) as [y c2].
+    cbn [fst pnames_ok] in *. split; assumption.
+Qed.
+
+Lemma render_safe : forall x, pnames_ok x -> all_safe (render x).
+Proof.
+  induction x as [p|i|op l IHl r IHr|a IHa b IHb|a IHa b IHb|a IHa|a IHa]; cbn [render pnames_ok]; intro H.
+  - apply all_safe_app; [apply const_safe; reflexivity|]. apply all_safe_app; [|apply const_safe; reflexivity].
+    unfold py_list_repr. apply all_safe_cons; [reflexivity|]. apply all_safe_app; [|apply const_safe; reflexivity].
+    apply join_safe; [apply const_safe; reflexivity|]. apply Forall_forall. intros t Ht. apply in_map_iff in Ht. destruct Ht as [n [En Hn]]. subst t.
+    apply all_safe_cons; [reflexivity|]. apply all_safe_app; [|apply const_safe; reflexivity]. apply name_safe. rewrite Forall_forall in H. exact (H n Hn).
+  - apply all_safe_app; [apply const_safe; reflexivity|]. apply all_safe_app; [apply str_of_N_safe|apply const_safe; reflexivity].
+  - destruct H as [Hl Hr]. apply all_safe_app; [apply const_safe; reflexivity|]. apply all_safe_app; [destruct op; apply const_safe; reflexivity|].
+    apply all_safe_app; [apply const_safe; reflexivity|]. apply all_safe_app; [apply IHl; exact Hl|]. apply all_safe_app; [apply const_safe; reflexivity|].
+    apply all_safe_app; [apply IHr; exact Hr|apply const_safe; reflexivity].
+  - destruct H as [Ha Hb]. apply all_safe_cons; [reflexivity|]. apply all_safe_app; [apply IHa; exact Ha|]. apply all_safe_app; [apply const_safe; reflexivity|].
+    apply all_safe_app; [apply IHb; exact Hb|apply const_safe; reflexivity].
+  - destruct H as [Ha Hb]. apply all_safe_cons; [reflexivity|]. apply all_safe_app; [apply IHa; exact Ha|]. apply all_safe_app; [apply const_safe; reflexivity|].
+    apply all_safe_app; [apply IHb; exact Hb|apply const_safe; reflexivity].
+  - apply all_safe_app; [apply const_safe; reflexivity|]. apply all_safe_app; [apply IHa; exact H|apply const_safe; reflexivity].
+  - apply all_safe_app; [apply const_safe; reflexivity|]. apply all_safe_app; [apply IHa; exact H|apply const_safe; reflexivity].
+Qed.
+
+Theorem source_alphabet t e : fparse t = Some e -> all_safe (render (fst (fgen e []))).
+Proof. intro H. apply render_safe, fgen_names. eapply fparse_names_ok; eauto. Qed.
